@@ -188,8 +188,8 @@ class Prop:
             "representative per renaming of the labels (thorough: plus all pairs (4 nodes, <= 3 nodes) and seeded samples of the "
             "(<= 3, 4) and (4, 4) pairs); random: mutated copies (add/remove/move/swap/relabel/sort, 0-6 steps) of random trees with up "
             "to 14 (thorough 30) nodes over 3-6 labels, unrelated random pairs, identical copies, the same tree object on both sides; pairs of TypedTrees with random kinds; "
-            "plus an out-of-domain stream (equal-comparing objects under explicit data_ids, ids shared by unequal data; diff may raise "
-            "UniqueConstraintError or lose nodes) on which model = implementation and 'inputs unchanged' are checked.  The oracle is "
+            "plus an out-of-domain stream (equal-comparing objects under explicit data_ids, ids shared by unequal data; diff may lose or "
+            "duplicate nodes) on which model = implementation and 'inputs unchanged' are checked.  The oracle is "
             "applied exactly on the pairs inside the theorems' domain (computed independently on both sides).  distinct = distinct "
             "(t0, t1); non-trivial = the result carries at least one mark")
     exhaustive_note = "all pairs of labelled forests <= 3 nodes over 3 labels up to renaming x 4 configurations"
@@ -199,16 +199,20 @@ class Prop:
         "copies the implementation marked MOVED_HERE and processes them first; agreement then shows the implementation's output is "
         "the model's output for one admissible iteration order (the theorems hold for every order)",
         "Tree.filter is wrapped inside the harness process to snapshot t2 before the reduce step of the same run",
+        "outside the theorems' domain a t1 branch can be copied twice (top matched by == and added by data_id); the model identifies "
+        "result nodes by their source and cannot tell the copies apart in the re-classification: such a case is not compared "
+        "when a MOVED_TO mark carries a data_id of that branch (stat dup_excluded); inside the domain this cannot happen "
+        "(C11_result_identities_distinct)",
     ]
     manifest = dict(
         text=("Machine-checked theorems (Coq 8.16, no axioms) about an executable model of nutree/diff.py (find_child, compare with the "
               "literal branch structure, copy_children, the set-ordered re-classification with the iteration order as an explicit "
-              "parameter, reduce through the boolean in-place filter, the UniqueConstraintError of the result tree, "
+              "parameter, reduce through the boolean in-place filter, the uniqueness check of the result tree, "
               "diff_node_formatter): for sibling-unique trees on which == and data_id agree and EVERY iteration order, identical inputs "
               "give an unmarked copy, dropping REMOVED/MOVED_TO gives t1's parent-child relation (paths of data objects, as a "
               "permutation), dropping ADDED/MOVED_HERE gives t0's child lists in order below every node present in both, marks sit "
               "exactly on the one-sided children, order marks are the true old/new index and appear only when ordered (dc_renumbered "
-              "iff a child is shifted), diff does not raise; for ANY two forests MOVED_HERE and MOVED_TO come in pairs with equal "
+              "iff a child is shifted); for ANY two forests diff does not raise (inputs with sibling-unique data_ids), MOVED_HERE and MOVED_TO come in pairs with equal "
               "data_id and reduce keeps exactly the marked nodes and their ancestors (pre-order with depths); complete iteration orders "
               "leave no REMOVED mark that an added node could explain.  Tied to /repo on every run by a correspondence check (all pairs "
               "of small forests x 4 configurations, mutated random trees, typed trees, an out-of-domain stream) and an independent "
@@ -330,11 +334,12 @@ class Prop:
         in0, in1 = coq_forest(t0._root, U, base), coq_forest(t1._root, U, base)
         before = (sx_forest(t0._root, U, base), sx_forest(t1._root, U, base))
         outside = not in_domain(t0._root._children or [], t1._root._children or [])
-        # the no-error theorem needs more: sibling uniqueness everywhere in t1 and collision-free hashes
-        may_not_raise = (not outside) and sib_unique_everywhere(t1) and hashes_injective(t0, t1)
+        # the no-error theorem needs only well-formed inputs: no two siblings with one data_id (Tree._register's own rule)
+        may_not_raise = dids_unique_everywhere(t0) and dids_unique_everywhere(t1)
         cfgs = desc.get("configs") or CONFIGS
         obs_runs = []
         coq_cfgs = []
+        moved_to_dids = set()
         fails = []
         marks = 0
         ambiguous = False
@@ -363,6 +368,7 @@ class Prop:
                 res._self_check()
             except Exception as e:  # noqa: BLE001
                 fails.append(f"selfcheck: result tree fails _self_check ({type(e).__name__}) ordered={ordered} reduce={reduce}")
+            moved_to_dids.update(n._data_id for n in B.all_nodes(res._root) if n.get_meta("dc") == DC.MOVED_TO)
             hints = [h - base for h in compute_hints(res, t0, t1)]
             coq_cfgs.append(f"({H.coq_bool(ordered)}, {H.coq_bool(reduce)}, {H.coq_list(H.z(h) for h in hints)})")
             rm = res._root._meta or {}
@@ -375,6 +381,15 @@ class Prop:
                 ambiguous = ambiguous or st["ambiguous"]
                 if f:
                     fails.append(f"{f} [ordered={ordered} reduce={reduce}]")
+        # Outside the domain a t1 child can be matched (==) AND added (its data_id is not among p0's): its branch is
+        # copied twice.  The model identifies result nodes by their source, so it cannot tell the two copies apart in the
+        # re-classification; when that matters (a MOVED_TO mark for a data_id of such a branch) the results are not compared.
+        dup_excluded = False
+        if outside:
+            dd = twice_copied_dids(t0._root, t1._root)
+            if dd and (dd & moved_to_dids):
+                dup_excluded = True
+                obs_runs, coq_cfgs = [], []
         obs = [obs_runs, before[0], before[1], not outside, may_not_raise]
         # the model is compared against the inputs as observed AFTER the calls
         obs[1], obs[2] = sx_in(t0._root, U, base), sx_in(t1._root, U, base)
@@ -383,7 +398,7 @@ class Prop:
         return Case(desc=desc, coq_input=coq_input, impl_obs=obs, oracle_fail="; ".join(fails[:3]) if fails else None,
                     nontrivial=marks > 0, key=H.digest([desc["univ"], desc["t0"], desc["t1"]]),
                     stats=dict(n0=min(n0, 16), n1=min(n1, 16), marked=marks > 0, ambiguous=ambiguous, raised=errors > 0,
-                               outside=outside))
+                               outside=outside, dup_excluded=dup_excluded))
 
 
 def coq_rt(node, U, base):
@@ -451,24 +466,12 @@ def in_domain(ch0, ch1):
     return True
 
 
-def sib_unique_everywhere(tree):
+def dids_unique_everywhere(tree):
     def ok(ch):
-        for i, a in enumerate(ch):
-            for b in ch[i + 1:]:
-                if a._data == b._data:
-                    return False
-        return all(ok(c._children or []) for c in ch)
+        ids = [c._data_id for c in ch]
+        return len(set(ids)) == len(ids) and all(ok(c._children or []) for c in ch)
 
     return ok(tree._root._children or [])
-
-
-def hashes_injective(t0, t1):
-    nodes = B.all_nodes(t0._root) + B.all_nodes(t1._root)
-    for i, a in enumerate(nodes):
-        for b in nodes[i + 1:]:
-            if hash(a._data) == hash(b._data) and not (a._data == b._data):
-                return False
-    return True
 
 
 def obs_forest(root, U):
@@ -476,6 +479,21 @@ def obs_forest(root, U):
 
 
 # ---------------------------------------------------------------------------
+def twice_copied_dids(p0, p1):
+    """data_ids of the t1 nodes that diff copies twice (their top is matched by == and also added by data_id)"""
+    out = set()
+    ch0, ch1 = p0._children or [], p1._children or []
+    ids0 = {c._data_id for c in ch0}
+    for c0 in ch0:
+        c1 = next((c for c in ch1 if c._data == c0._data), None)
+        if c1 is None:
+            continue
+        if c1._data_id not in ids0:
+            out.update(n._data_id for n in B.all_nodes(c1))
+        out |= twice_copied_dids(c0, c1)
+    return out
+
+
 def compute_hints(res, t0, t1):
     """t1 nodes whose copies in the result are marked MOVED_HERE, found by walking result, t0 and t1 in parallel (data
     objects are shared between a copy and its source)."""
@@ -595,6 +613,14 @@ def oracle(t0, t1, res, ordered, reduce, snap):
     if r:
         return r, st
 
+    # The re-classification works on data_ids (C11_moved_pairs, C11_moves_complete speak about data_ids); in terms of
+    # the DATA it is what (6) says when == and data_id agree on all nodes of both trees (C11_moved_pairs_same_data),
+    # which the domain of the projection laws does not imply for nodes that are never compared with each other.
+    if not ids_agree_globally(t0, t1):
+        if reduce:
+            return check_reduce(got, full, got_root_meta, root_meta), st
+        return None, st
+
     # (6) MOVED_HERE => a MOVED_TO with equal data exists (and conversely); a REMOVED mark survives only if no node copied
     #     from an added t1 branch has equal data
     flat = []
@@ -625,19 +651,33 @@ def oracle(t0, t1, res, ordered, reduce, snap):
 
     # (7) reduce = marked nodes and their ancestors
     if reduce:
-        def keep(f):
-            out = []
-            for d, m, k in f:
-                kk = keep(k)
-                if bool(dc_of(m)) or kk:
-                    out.append((d, m, kk))
-            return out
-
-        if got != keep(full):
-            return "reduce: result is not 'marked nodes and their ancestors' of the unreduced result of the same run", st
-        if got_root_meta != root_meta:
-            return "reduce: root meta changed", st
+        return check_reduce(got, full, got_root_meta, root_meta), st
     return None, st
+
+
+def check_reduce(got, full, got_root_meta, root_meta):
+    def keep(f):
+        out = []
+        for d, m, k in f:
+            kk = keep(k)
+            if bool(dc_of(m)) or kk:
+                out.append((d, m, kk))
+        return out
+
+    if got != keep(full):
+        return "reduce: result is not 'marked nodes and their ancestors' of the unreduced result of the same run"
+    if got_root_meta != root_meta:
+        return "reduce: root meta changed"
+    return None
+
+
+def ids_agree_globally(t0, t1):
+    nodes = B.all_nodes(t0._root) + B.all_nodes(t1._root)
+    for i, a in enumerate(nodes):
+        for b in nodes[i + 1:]:
+            if bool(a._data == b._data) != (a._data_id == b._data_id):
+                return False
+    return True
 
 
 def shape(n):
